@@ -134,3 +134,36 @@ Theorem connector_cap_exact : forall base nexts,
   aggregate_cap base nexts = base || existsb id nexts.
 Proof. exact aggregate_cap_spec. Qed.
 Print Assumptions connector_cap_exact.
+
+(* The converse of (iii), making "exactly" precise: when the fan-out advertises MutatesData and the
+   caller's payload is mutable, then — for every schedule, once all calls are made — a declared-mutating
+   consumer does hold the caller's payload itself (so the advertisement is never an over-approximation). *)
+Theorem fan_cap_original_reaches_mutator : forall caps c0 ls,
+  fan_cap (new_fan caps) = true -> length caps <= ncalls ls ->
+  exists i, mutc_of caps i = true /\ holds (run (new_fan caps) false c0 ls) i 0.
+Proof. exact orig_reaches_mutator_l. Qed.
+Print Assumptions fan_cap_original_reaches_mutator.
+
+(* ---- graph level --------------------------------------------------------------------------------- *)
+(* A receiver (or a connector's router) feeding the pipelines [roots] hands data to
+   fanoutconsumer.NewX over the pipelines' advertised capabilities [pipe_cap_t].  For every schedule:
+   a pipeline with a mutating processor, or whose exporter stage acts on the original payload, holds its
+   payload alone and it is mutable — it got its own copy. *)
+Theorem graph_mutating_pipeline_isolated : forall roots ro_in c0 ls i j c procs exps,
+  let m := run (new_fan (map pipe_cap_t roots)) ro_in c0 ls in
+  nth_error roots i = Some (Pipe procs exps) ->
+  (exists p, In p procs /\ p = true) \/ fan_cap (new_fan (map node_cap exps)) = true ->
+  holds m i c -> holds m j c ->
+  j = i /\ cro (get (st m) c) = false.
+Proof. exact mutating_pipeline_isolated_l. Qed.
+Print Assumptions graph_mutating_pipeline_isolated.
+
+(* Pipelines that do share a payload have no mutating processor, their exporter stage does not act on
+   the original, and the shared payload is read-only. *)
+Theorem graph_shared_pipelines_readonly : forall roots ro_in c0 ls i j c procs exps,
+  let m := run (new_fan (map pipe_cap_t roots)) ro_in c0 ls in
+  nth_error roots i = Some (Pipe procs exps) ->
+  holds m i c -> holds m j c -> i <> j ->
+  existsb id procs = false /\ fan_cap (new_fan (map node_cap exps)) = false /\ cro (get (st m) c) = true.
+Proof. exact shared_pipelines_readonly_l. Qed.
+Print Assumptions graph_shared_pipelines_readonly.
